@@ -543,37 +543,41 @@ def run_history(h):
 # This reaches the write paths the proxy files cannot: ndarray.tofile through the descriptor and the kernel copy.
 
 SL_KINDS = ("ndarray", "proto_raw", "external", "lazy", "mixed")
-SL_N = 1000
+SL_N = 600
+SL_FILLS = (0x41, 0x42, 0x43)
 
 
 def _sl_tensors(kind, d):
     from onnx_ir import serde as _serde
     import onnx as _onnx
 
-    a, b = _arr(SL_N, 0x41), _arr(SL_N, 0x42)
+    arrs = [_arr(SL_N, f) for f in SL_FILLS]
+
+    def proto(i, x):
+        return _serde.TensorProtoTensor(_onnx.TensorProto(name=f"w{i}", data_type=_onnx.TensorProto.UINT8, dims=[SL_N], raw_data=x.tobytes()))
+
     if kind == "ndarray":
-        return [ir.Tensor(a), ir.Tensor(b)]
+        return [ir.Tensor(x) for x in arrs]
     if kind == "proto_raw":
-        return [_serde.TensorProtoTensor(_onnx.TensorProto(name=f"w{i}", data_type=_onnx.TensorProto.UINT8, dims=[SL_N], raw_data=x.tobytes())) for i, x in enumerate((a, b))]
+        return [proto(i, x) for i, x in enumerate(arrs)]
     if kind == "external":
         with open(os.path.join(d, "src.data"), "wb") as f:
-            f.write(a.tobytes() + b.tobytes())
-        return [ir.ExternalTensor("src.data", i * SL_N, SL_N, ir.DataType.UINT8, shape=ir.Shape([SL_N]), name=f"w{i}", base_dir=d) for i in range(2)]
+            f.write(b"".join(x.tobytes() for x in arrs))
+        return [ir.ExternalTensor("src.data", i * SL_N, SL_N, ir.DataType.UINT8, shape=ir.Shape([SL_N]), name=f"w{i}", base_dir=d) for i in range(len(arrs))]
     if kind == "lazy":
-        return [ir.LazyTensor(lambda x=x: ir.Tensor(x), dtype=ir.DataType.UINT8, shape=ir.Shape([SL_N]), name=f"w{i}") for i, x in enumerate((a, b))]
-    from onnx_ir import serde as _s2
-
-    return [ir.Tensor(a), _s2.TensorProtoTensor(_onnx.TensorProto(name="w1", data_type=_onnx.TensorProto.UINT8, dims=[SL_N], raw_data=b.tobytes()))]
+        return [ir.LazyTensor(lambda x=x: ir.Tensor(x), dtype=ir.DataType.UINT8, shape=ir.Shape([SL_N]), name=f"w{i}") for i, x in enumerate(arrs)]
+    return [ir.Tensor(arrs[0]), proto(1, arrs[1]), ir.Tensor(arrs[2])]
 
 
-def _sl_run(kind, entry, limit):
-    """One execution. Returns (outcome, violations)."""
+def _sl_run(kind, entry, limit, workers=None, when=None, restore=False):
+    """One execution. The file-size limit is in force from the start (when=None) or is switched on by the progress
+    callback of tensor `when` (and off again by the next callback if `restore`). Returns (outcome, violations)."""
     import resource
     import signal
 
     d = common.scratch_dir("c08sl")
     old = b"OLD" * 700
-    new = _arr(SL_N, 0x41).tobytes() + _arr(SL_N, 0x42).tobytes()
+    new = b"".join(_arr(SL_N, f).tobytes() for f in SL_FILLS)
     bad = []
     try:
         with open(os.path.join(d, "w.data"), "wb") as f:
@@ -588,9 +592,22 @@ def _sl_run(kind, entry, limit):
                 os.close(rfd)
                 signal.signal(signal.SIGXFSZ, signal.SIG_IGN)
                 _, hard = resource.getrlimit(resource.RLIMIT_FSIZE)
-                resource.setrlimit(resource.RLIMIT_FSIZE, (limit, hard))
+                unlimited = resource.getrlimit(resource.RLIMIT_FSIZE)[0]
+                kw = dict(external_data="w.data", size_threshold_bytes=0)
+                if workers is not None:
+                    kw["max_workers"] = workers
+                if when is None:
+                    resource.setrlimit(resource.RLIMIT_FSIZE, (limit, hard))
+                else:
+                    def cb(tensor, info):
+                        if info.index == when:
+                            resource.setrlimit(resource.RLIMIT_FSIZE, (limit, hard))
+                        elif restore and info.index == when + 1:
+                            resource.setrlimit(resource.RLIMIT_FSIZE, (unlimited, hard))
+
+                    kw["callback"] = cb
                 try:
-                    _call_entry(model, d, dict(external_data="w.data", size_threshold_bytes=0), {"entry": entry})
+                    _call_entry(model, d, kw, {"entry": entry})
                     code = b"ok"
                 except BaseException as e:  # noqa: BLE001
                     code = f"raised:{type(e).__name__}:{getattr(e, 'errno', None)}".encode()
@@ -611,10 +628,10 @@ def _sl_run(kind, entry, limit):
         extra = sorted(set(os.listdir(d)) - before - {"m.onnx"})
         if outcome == "ok":
             if data != new:
-                bad.append(("save_reported_success_but_data_file_is_not_the_new_bytes", f"len={len(data)} want {len(new)}; equals old={data == old}"))
+                bad.append(("save_reported_success_but_data_file_is_not_the_new_bytes", f"len={len(data)} want {len(new)}; equals old={data == old}; zero bytes={data.count(0)}"))
         else:
             if data != old:
-                bad.append(("failed_save_changed_the_existing_data_file", f"outcome={outcome} len={len(data)} new_prefix={data == new[:len(data)]}"))
+                bad.append(("failed_save_changed_the_existing_data_file", f"outcome={outcome} len={len(data)} new_prefix={data == new[:len(data)]} zero bytes={data.count(0)}"))
         if extra:
             bad.append(("temporary_files_left_behind", f"outcome={outcome} {extra}"))
     finally:
@@ -623,26 +640,42 @@ def _sl_run(kind, entry, limit):
 
 
 def _sl_limits(tier):
-    base = {0, 1, 500, 999, 1000, 1001, 1500, 1999, 2000, 2001, 4096}
+    total = SL_N * len(SL_FILLS)
+    base = {0, 1, SL_N - 1, SL_N, SL_N + 1, SL_N + SL_N // 2, 2 * SL_N, total - 1, total, total + 1, 4096}
     if tier == "thorough":
-        base |= set(range(0, 2100, 37))
+        base |= set(range(0, total + 100, 37))
     else:
-        base |= set(range(0, 2100, 250)) | {1990, 1024}
+        base |= {100, 2 * SL_N + 10}
     return sorted(base)
 
 
+def _sl_plans(tier):
+    """(limit, when, restore): limits in force from the start; limits switched on by the callback of tensor `when`,
+    staying on or switched off again by the next callback (a transient refusal: the hole it leaves is inside the file)."""
+    plans = [(lim, None, False) for lim in _sl_limits(tier)]
+    for when in range(len(SL_FILLS)):
+        for lim in ((0, 100, SL_N, SL_N + 10) if tier == "quick" else (0, 1, 100, SL_N - 1, SL_N, SL_N + 10, 2 * SL_N, 2 * SL_N + 10)):
+            plans.append((lim, when, False))
+            if when + 1 < len(SL_FILLS):
+                plans.append((lim, when, True))
+    return plans
+
+
 def _sl_work(task):
-    kind, entry, tier = task
+    kind, entry, workers, tier = task
     found = {}
     outcomes = {}
     n = 0
-    for limit in _sl_limits(tier):
+    label = f"size_limit[{kind},{entry},workers={workers}]"
+    for limit, when, restore in _sl_plans(tier):
         n += 1
-        outcome, bad = _sl_run(kind, entry, limit)
+        outcome, bad = _sl_run(kind, entry, limit, workers, when, restore)
         outcomes[outcome.split(":")[0]] = outcomes.get(outcome.split(":")[0], 0) + 1
         for clause, detail in bad:
-            found.setdefault(f"size_limit[{kind},{entry}]|{clause}", {"history": f"size_limit[{kind},{entry}]", "plan": {"rlimit_fsize": limit}, "clause": clause, "detail": detail, "kind": kind, "entry": entry, "limit": limit})
-    return f"size_limit[{kind},{entry}]", n, n, found, outcomes
+            mode = "from_start" if when is None else ("transient" if restore else "from_callback")
+            found.setdefault(f"{label}|{clause}|{mode}", {"history": label, "plan": {"rlimit_fsize": limit, "switched_on_by_callback_of_tensor": when, "switched_off_by_next_callback": restore}, "clause": clause, "detail": detail,
+                                                          "kind": kind, "entry": entry, "limit": limit, "workers": workers, "when": when, "restore": restore})
+    return label, n, n, found, outcomes
 
 
 def _work(h_index_tier):
@@ -663,7 +696,7 @@ def main(tier):
         common.eprint(f"  [C08] {name}: effects={neff} runs={runs} violations={sorted(c.split('|')[1] for c in f)}")
         for k, v in f.items():
             found.setdefault(k, v)
-    sl = common.pmap(_sl_work, [(k, e, tier) for k in SL_KINDS for e in ("save", "convert")], chunksize=1)
+    sl = common.pmap(_sl_work, [(k, e, w, tier) for k in SL_KINDS for e in ("save", "convert") for w in (None, 3)], chunksize=1)
     for name, runs, neff, f, outcomes in sl:
         common.eprint(f"  [C08] {name}: limits={runs} outcomes={outcomes} violations={sorted(c.split('|')[1] for c in f)}")
         total_runs += runs
@@ -672,7 +705,7 @@ def main(tier):
             found.setdefault(k, v)
     for key, f in sorted(found.items()):
         r.violation(key, f"{f['clause']}: {f['detail']} (plan {f['plan']})", {"engine": "E5", "history": f["history"], "fault_plan": f["plan"], "oracle": f["clause"], "detail": f["detail"],
-                                                                                **({"size_limit": [f["kind"], f["entry"], f["limit"]]} if "limit" in f else {})})
+                                                                                **({"size_limit": [f["kind"], f["entry"], f["limit"], f["workers"], f["when"], f["restore"]]} if "limit" in f else {})})
     for name, runs, neff, f, log in res[:2]:
         r.sample({"history": name, "effects": log})
     r.coverage.update({
@@ -689,8 +722,7 @@ def main(tier):
 
 def replay(obj):
     if obj.get("size_limit"):
-        kind, entry, limit = obj["size_limit"]
-        outcome, bad = _sl_run(kind, entry, limit)
+        outcome, bad = _sl_run(*obj["size_limit"])
         hit = [b for b in bad if b[0] == obj["oracle"]]
         return (not hit), [outcome] + hit
     hs = {h.name: h for h in histories("thorough")}
